@@ -415,6 +415,11 @@ func (g *Gen) matchLoc(sc *modScope, fam, idx string) string {
 	return sOr(alts...)
 }
 
+// matchLocOrNil: a callee's declared location rooted at nil cannot actually be written
+func (g *Gen) matchLocOrNil(sc *modScope, fam, idx string) string {
+	return sOr(sEq(idx, bv64(0)), g.matchLoc(sc, fam, idx))
+}
+
 func (g *Gen) matchElem(sc *modScope, fam, base, lo, hi string) string {
 	var alts []string
 	for _, it := range sc.items {
@@ -530,7 +535,7 @@ func (f *Frame) checkItemsAllowed(items []*modItem, pos token.Pos, callee string
 					}
 				}
 			case "loc":
-				goal = g.matchLoc(sc, it.fam, it.idx)
+				goal = g.matchLocOrNil(sc, it.fam, it.idx)
 			case "elemAll":
 				goal = g.matchElem(sc, it.fam, it.base, bv64(-(1 << 62)), bv64(1<<62))
 				// elemAll in callee needs elemAll (or fresh) in caller
